@@ -35,7 +35,7 @@ CFG = Cfg(max_depth=3, theories={"bool", "int", "real", "bv", "arr", "uf", "quan
 
 FAIL_KINDS = ["construct", "substitute", "cnf-quantified", "qelim-nonbool", "size-measure", "get-symbol", "hr-parse",
               "smtlib-parse", "array-nonconst-key", "fi-free-vars", "custom-operator", "model-text", "malformed-declaration",
-              "with-block-raises", "generic-solver-redefinition", "command-generator", "simplify-custom-walker"]
+              "with-block-raises", "generic-solver-redefinition", "command-generator", "construct-equal-key", "simplify-custom-walker"]
 DECL_NAME = "c15 declared name"
 GENERIC_NAME = "c15-generic-solver"
 
@@ -168,6 +168,10 @@ def do_fail(world, fail):
                     world.parser.get_assignment_list(StringIO(text))
             elif kind == "malformed-declaration":
                 world.parser.get_script(StringIO(fail[1]))
+            elif kind == "construct-equal-key":
+                # a rejected construction whose (operator, arguments, parameters) compare EQUAL to those of a valid one
+                # (8.0 == 8): the valid one must still be constructible afterwards
+                mgr.BV(fail[1], float(fail[2]))
             elif kind == "command-generator":
                 # the interactive interface: commands are read one by one, the parser keeps its state in between
                 world.ensure_cg_declared()
@@ -288,6 +292,8 @@ def gen_fail(g, probe, rel):
         return ("with-block-raises",)
     if kind == "generic-solver-redefinition":
         return ("generic-solver-redefinition",)
+    if kind == "construct-equal-key":
+        return ("construct-equal-key", g.choice([0, 1, 5]), g.choice([3, 8]))
     if kind == "command-generator":
         return ("command-generator", g.choice([
             "(assert (let ((cgx 5)) (frob cgx)))", "(assert (let ((cgy 1) (cgx 5) (cgz (frob 1))) (= cgx cgy)))",
@@ -384,6 +390,22 @@ def _check_history(run, probe, history, probes, ptexts):
             run.fail({"subcheck": "trace:result-differs", "service": "command-generator", "after": "command-generator"}, case,
                      "(assert (> cgx (- cgx))) read by the long-lived parser's command generator: %s after failing commands, %s on the twin" % (
                          outs[0], outs[1]))
+    # constants whose key equals the key of a rejected construction
+    if "construct-equal-key" in kinds:
+        outs = []
+        for W in (A, Bw):
+            o = []
+            for v_ in (0, 1, 5):
+                for w_ in (3, 8):
+                    try:
+                        o.append(str(W.env.formula_manager.BV(v_, w_)))
+                    except Exception as e:
+                        o.append("raised " + type(e).__name__)
+            outs.append(o)
+        run.cls("probe:construct-equal-key")
+        if outs[0] != outs[1]:
+            run.fail({"subcheck": "trace:result-differs", "service": "constructor", "after": "construct-equal-key"}, case,
+                     "BV(v, w) for v in 0,1,5 and w in 3,8: %s after the rejected BV(v, float(w)), %s on the twin" % (outs[0], outs[1]))
     # what the factory knows about its generic solver
     outs = []
     for W in ((A, Bw) if A.generic else ()):
